@@ -194,6 +194,21 @@ impl TX for Imp {
     fn x_a(&mut self, a: u64) -> u64 { self.id = self.id.wrapping_add(3); self.step(81, 5, a) }
     fn x_c(&self, a: u64) -> u64 { self.step(82, 7, a ^ 9) }
 }
+/// two getters returning BORROWED wrapped children of the same associated type: both results can
+/// be held at once (shared receivers), each reaches its own instance
+#[cglue_trait]
+pub trait TKid { fn kid_get(&self, a: u64) -> u64; }
+pub struct Kid2 { pub st: *mut State, pub id: u64 }
+impl TKid for Kid2 { fn kid_get(&self, a: u64) -> u64 { let s = unsafe { &mut *self.st }; s.calls = s.calls.wrapping_add(1); s.log = s.log.rotate_left(5) ^ (self.id as u32); a ^ self.id.rotate_left(9) } }
+pub struct Pair { pub left: Kid2, pub right: Kid2 }
+#[cglue_trait]
+pub trait TPair {
+    #[wrap_with_obj_ref(TKid)]
+    type K: TKid + 'static;
+    fn right(&self) -> &Self::K;
+    fn left(&self) -> &Self::K;
+}
+impl TPair for Pair { type K = Kid2; fn right(&self) -> &Kid2 { &self.right } fn left(&self) -> &Kid2 { &self.left } }
 /// builtin external trait
 impl AsRef<u64> for Imp { fn as_ref(&self) -> &u64 { let _ = self.step(60, 47, 0); &self.id } }
 
